@@ -34,7 +34,7 @@ RULE = (
 ASSUMPTIONS = [
     "the empty key list is not generated ('the given keys' presupposes some)",
     "output order of merge_events_by_keys and the merged event's timestamp are not prescribed",
-    "chunk_events_by_key is driven with sequences whose total span is below the default pulsetime so that every reading of its pulsetime rule agrees; maximal runs are then required",
+    "chunk_events_by_key is driven with sequences in which every single gap (<= 2 s) is below the default pulsetime (5 s) so that every reading of its pulsetime rule agrees (at the 0.5 s scale the whole sequence is shorter than it); maximal runs are then required",
     "limit_events is checked for counts >= 0",
 ]
 _G = {}
@@ -62,6 +62,10 @@ def check_merge(emb, shapes, keys, zero=False):
     if len(shapes) >= 2 and len(keys) >= 2:
         # odd positions build their dict in the other key order
         evs = [emb.ev(i, 0 if zero and i == 0 else 2 ** i, mkdata(*sh[:2], swapped=bool(i % 2))) for i, sh in enumerate(shapes)]
+    # ids are unique per bucket only: events of a concatenation of two buckets share ids (0, 0, 1, 1 ...);
+    # every event counts all the same (seeded: events repeating an id were skipped as duplicates)
+    for i, e in enumerate(evs):
+        e.id = i // 2 if len(evs) % 2 == 0 else None
     snap = [S.ev_tuple(e) for e in evs]
     try:
         out = merge_events_by_keys(evs, list(keys))
@@ -94,13 +98,13 @@ def check_merge(emb, shapes, keys, zero=False):
     return probs
 
 
-def check_chunk(emb, seq):
-    """seq: tuple of (gap_before, dur, value)"""
+def check_chunk(emb, seq, scale=0.5):
+    """seq: tuple of (gap_before, dur, value); scale: lattice step in units (seconds)"""
     evs = []
     t = 0
     for i, (gap, dur, val) in enumerate(seq):
         t += gap
-        evs.append(emb.ev(t * 0.5, dur * 0.5, {"k": deepcopy(val), "i": i}))
+        evs.append(emb.ev(t * scale, dur * scale, {"k": deepcopy(val), "i": i}))
         t += dur
     snap = [S.ev_tuple(e) for e in evs]
     try:
@@ -215,9 +219,15 @@ def _unit(args):
             u.evaluations += 1
             u.transitions += 1
             u.nontrivial += 1 if len(it) >= 2 else 0
-            for sym, det in check_chunk(emb, it)[:1]:
-                case = {"fn": "chunk", "seq": [list(x) for x in it]}
-                u.violation(f"chunk_events_by_key:{sym}", f"sequence (gap,dur,value) {list(it)}: {det}", case, size=len(it) * 1000 + len(json.dumps(case)))
+            # scale 0.5 s: the whole sequence spans less than the default pulsetime; scale 2 s: every single
+            # gap (<= 2 s) is still far below it but the SEQUENCE is longer (seeded: gaps were measured from
+            # the running chunk's start + summed durations, so small gaps added up to a split)
+            for scale in (0.5, 2.0):
+                if scale == 0.5 and sum(g + d for g, d, _ in it) * 0.5 >= 4.5:
+                    continue
+                for sym, det in check_chunk(emb, it, scale)[:1]:
+                    case = {"fn": "chunk", "seq": [list(x) for x in it], "scale": scale}
+                    u.violation(f"chunk_events_by_key:{sym}", f"sequence (gap,dur,value) {list(it)} at {scale} s per step: {det}", case, size=len(it) * 1000 + len(json.dumps(case)))
         elif kind == "sort":
             u.evaluations += 2 + len(it) + 2
             u.transitions += 2 + len(it) + 2
@@ -253,7 +263,7 @@ def _space(ctx):
     cel = [(g, d, v) for g in (0, 1) for d in (0, 1) for v in ("x", "y", ["x"])]
     chunk = [t for k in range(0, cn + 1) for t in itertools.product(cel, repeat=k)]
     # keep the total span below the default pulsetime (5 s): half-unit steps -> max span (1+1)*0.5*5 = 5 -> restrict
-    chunk = [t for t in chunk if sum(g + d for g, d, _ in t) * 0.5 < 4.5]
+    # (the 0.5 s scale is skipped for sequences spanning 4.5 s or more, see the unit)
     sn = 5 if ctx.thorough else 4
     skinds = [(s, d) for s in (0, 1, 2) for d in (0, 1, 2)]
     sort = [t for k in range(0, sn + 1) for t in itertools.product(skinds, repeat=k)]
@@ -284,7 +294,7 @@ def run_case(ctx, case):
     if fn == "merge":
         probs = check_merge(emb, [tuple(x) for x in case["shapes"]], tuple(case["keys"]), case.get("zero", False))
     elif fn == "chunk":
-        probs = check_chunk(emb, [tuple(x) for x in case["seq"]])
+        probs = check_chunk(emb, [tuple(x) for x in case["seq"]], case.get("scale", 0.5))
     elif fn == "sort":
         probs = check_sort(emb, [tuple(x) for x in case["kinds"]])
     else:
